@@ -122,6 +122,12 @@ fn main() {
       }
       // the candidates with their real scores: exhaustive, ordered by score, no flags
       let mut all = json!({"query": q.json(), "execution": "bm25", "limit": ndocs + 5});
+      if sort.iter().any(|k| k["field"] == "_score") {
+        // the plan compares scores: take them from the request's own execution and plan (an f32
+        // sum can differ in the last bit between executors, which decides ties on the score key)
+        all["execution"] = json!(execution);
+        all["sort"] = json!(sort);
+      }
       if let Some(f) = &filter {
         all["filter"] = f.clone();
       }
